@@ -6,9 +6,10 @@ CONSTANTS
  HashSession = TRUE
  HashId = TRUE
  DedupMode = "peer+id"
+ AllowRelay = TRUE
  MCCfgs <- Cfg3
  Bodies = {x, y}
- MaxFSig = 4
+ MaxFSig = 3
  MaxB = 1
  Lists = "best"
 SYMMETRY Sym
